@@ -77,7 +77,7 @@ def rich_leaf(tfy: bool = True, plain_only: bool = False):
 
 
 ATTR_VALS = st.one_of(gen.safe_text(0, 4), gen.hot_text(2), st.sampled_from([True, 1, 2.5, {"html": "&x;"}, {"html": "a b"}]))
-ATTRS = st.lists(st.tuples(st.sampled_from(["id", "class_", "lang", "data_x", "title", "style"]), ATTR_VALS).map(list), max_size=3)
+ATTRS = st.lists(st.tuples(st.sampled_from(["id", "class_", "lang", "data_x", "title", "style", "hx_on__after_request", "a__b", "x__", "_lead", "data__x_y_", "A_b"]), ATTR_VALS).map(list), max_size=3)
 NAMES = st.sampled_from(["div", "p", "span", "a", "ul", "b", "section", "head", "body", "title"])
 
 
